@@ -65,9 +65,14 @@ def gen_groups(run, n):
             schema = gen_schema(rng, odd_type_names=True, n_enum=0, n_input=0, args=False)
         elif gi % 2 == 0:
             schema = gen_schema(rng, odd_type_names=True, n_enum=rng.randint(1, 3), n_input=rng.randint(1, 3))
+            # at least one enum value that is a Rust keyword and one that changes under normalization
+            e0 = schema.of_kind("enum")[0]
+            for extra in ("type", "in_progress"):
+                if extra not in schema.types[e0]["values"] and names.camel(extra) not in {names.camel(v) for v in schema.types[e0]["values"]}:
+                    schema.types[e0]["values"].append(extra)
         doc, feats = gen_document(schema, rng, n_ops=rng.choice([1, 1, 2]))
         other = rng.random() < 0.4      # not wire-neutral: held constant inside a group
-        skip = rng.random() < 0.3
+        skip = rng.random() < 0.3 or enum_free
         base_opts = {"other_variant": other, "skip_none": skip}
         base = C.make_case("g%dv0" % gi, schema, doc, rng, options=base_opts, features=feats)
         vecs, stats = C.resp_vectors(base, rng, n_payloads=6, n_corrupt_bases=1, other_variant=other)
